@@ -337,6 +337,15 @@ func main() {
 		}
 	})
 
+	// the storage-version migrators alone, over several pages of objects
+	for _, sc := range scs {
+		if sc.Name == "crds-bundle-missing-or-stale" && (c.Only == "" || strings.HasPrefix(c.Only, "scn/migrator")) {
+			if err := kit.Try(func() { migratorPart(c, sc) }); err != nil {
+				c.Violate("harness-panic:migrator", "scn/migrator", err.Error(), nil)
+			}
+		}
+	}
+
 	var cases []faultCase
 	callsPer := map[string]int{}
 	for i, b := range bases {
